@@ -7,7 +7,8 @@ TECHNIQUE = "grammar-table extraction from the two decoders of each object kind 
 EXPLANATION = ("For commits and tags: the in-memory decoder (commit::decode::commit / tag::decode::git_tag) and the streaming iterator (CommitRefIter / "
                "TagRefIter::next_inner_) are reduced to the table {header keyword -> value-parser function} plus the set of shared gix_object::parse helpers they "
                "use; the two tables and helper sets must be equal, nobody re-implements a header parser privately, and the keywords, in the decoder's order, must "
-               "be the order Commit(Ref)/Tag(Ref)::write_to emits them. Byte-exact re-encoding and acceptance of everything git emits are not decided.")
+               "be the order Commit(Ref)/Tag(Ref)::write_to emits them. Both commit decoders parse extra headers by the ordered choice `multi-line, else single-line` "
+               "(winnow alt in that order, or an explicit fallback on the failure edge). Byte-exact re-encoding and acceptance of everything git emits are not decided.")
 PAIRS = [("commit", r"^gix_object::commit::decode::commit$", r"^gix_object::commit::ref_iter::<impl gix_object::CommitRefIter<'a>>::next_inner_$",
           [r"^gix_object::commit::write::<impl gix_object::traits::WriteTo for gix_object::Commit>::write_to$", r"^gix_object::commit::write::<impl gix_object::traits::WriteTo for gix_object::CommitRef<'_>>::write_to$"],
           ["tree", "parent", "author", "committer", "encoding"]),
@@ -55,7 +56,63 @@ def grammar(db, root):
     return table, helpers, kws_all, order
 
 
+def extra_header_choice(db, chk, f, label):
+    """extra headers are parsed by an ordered choice: the multi-line parser first, the single-line parser as its fallback - either both handed to
+    winnow's `alt` in that order, or the single-line call reachable from the failure edge of the multi-line call."""
+    fl = Flow(f)
+    fam = {g.name: g for g in [f] + db.closures_of(f)}
+
+    def parsers(op):
+        got = set()
+        for r in fl.roots(op, stop_named=False):
+            nm = r[1] if r[0] == "fnitem" else r[1][4:-2] if r[0] == "const" and isinstance(r[1], str) and r[1].startswith("agg:") else None
+            if nm is None:
+                continue
+            todo, seen = [nm], set()
+            while todo:
+                x = todo.pop()
+                if x in seen:
+                    continue
+                seen.add(x)
+                if x.endswith("parse::any_header_field_multi_line"):
+                    got.add("multi")
+                elif x.endswith("parse::any_header_field"):
+                    got.add("single")
+                g = fam.get(x)
+                if g is not None:
+                    for c in g.calls():
+                        todo.extend(c.names)
+                        for a in c.args:
+                            if "fn" in a:
+                                todo.append(a["fn"])
+                    todo.extend(h.name for h in fam.values() if h.name.startswith(x + "::{closure#"))
+        return got
+    ok = False
+    for c in f.calls_to(r"branch::alt$"):
+        l = c.args[0].get("p", [None])[0]
+        for bi, si, pl, rv, ln, mc in f.assigns():
+            if pl == [l] and rv[0] == "agg" and rv[1] == "tuple" and len(rv[4]) == 2:
+                ps = [parsers(op) for op in rv[4]]
+                if ps[0] == {"multi"} and ps[1] == {"single"}:
+                    ok = True
+    if not ok:
+        # hand-written fallback: single-line parser call reachable from the Err edge of the multi-line call only
+        for g in fam.values():
+            gfl = Flow(g)
+            ms = g.calls_to(r"parse::any_header_field_multi_line$")
+            ss = g.calls_to(r"parse::any_header_field$")
+            if ms and ss:
+                e = gfl.result_edges(ms[0])
+                if e["bad"] and all(gfl.cut_off([x.block], e["bad"], start=ms[0].block) for x in ss):
+                    ok = True
+    chk.ob("extra-header-ordered-choice", label, ok,
+           "extra headers must be parsed by `multi-line, else single-line` (winnow alt in that order, or an explicit fallback on failure); a choice made up front by looking at the input is not equivalent",
+           "%s:%d" % (f.file, f.line), key="extra-header-choice|%s" % label)
+
+
 def run(db, chk):
+    extra_header_choice(db, chk, db.one(r"^gix_object::commit::decode::commit$"), "commit decoder")
+    extra_header_choice(db, chk, db.one(r"^gix_object::commit::ref_iter::<impl gix_object::CommitRefIter<.a>>::next_inner_$"), "CommitRefIter")
     for kind, dpat, ipat, wpats, spec in PAIRS:
         d, it = db.one(dpat), db.one(ipat)
         td, hd, kd, od = grammar(db, d)
